@@ -715,6 +715,15 @@ def impl_form(b, u, mp_, mm, chunks):
 
 def impl(case):
     op = case[0]
+    if op in ("events", "form"):
+        chunks = case[3] if op == "events" else case[5]
+        whole = b"".join(c for c in chunks if c)
+        if len(whole) % 2:
+            # the process has decoded other bodies before: here the very same bytes, declared in the other charset
+            try:
+                impl_events(case[1], not case[2], [whole])
+            except Exception:  # noqa
+                pass
     if op == "events":
         return impl_events(case[1], case[2], case[3])
     if op == "form":
